@@ -22,10 +22,11 @@ package dnsforward
 // to read state for the abstraction function (ProtectionStatus,
 // protectionUpdateInProgress) and -- one scheduling device -- to decide WHEN
 // the write-back worker runs: to model a worker that has been started but not
-// yet scheduled, the harness sets protectionUpdateInProgress itself just
-// before an observation that would start the worker (so the code's
-// CompareAndSwap finds it started) and later calls enableProtectionAfterPause
-// synchronously, which is exactly what the started goroutine executes.
+// yet scheduled, the harness marks a worker as in progress
+// (protectionUpdateInProgress) before an observation, so that the code's
+// CompareAndSwap starts none, and later calls enableProtectionAfterPause
+// synchronously, which is exactly what the started goroutine executes (see
+// observe).
 
 import (
 	"bytes"
@@ -537,31 +538,46 @@ func (z *zzG04Sys) query(kind string, rng *rand.Rand) (res, detail string) {
 	}
 }
 
-// wouldStart says whether the next observation finds a pause whose deadline
-// has been reached and no worker in progress, i.e. starts the worker.
-func (z *zzG04Sys) wouldStart() (ok bool) {
+// observe runs f, an observation (dns_info read or query), which reports
+// whether its reply shows protection in effect (known: the reply shows it at
+// all).  Whether the observation starts the write-back worker is the code's
+// decision and is not predicted here:
+//
+//   - lazy: a worker that the observation may start is held back.  The harness
+//     marks a worker as in progress beforehand, so that the code starts none;
+//     if the reply then shows that the code found the deadline reached (in
+//     effect, though a deadline is stored), the mark stands for the worker it
+//     would have started (vpend); otherwise the mark is taken back.
+//   - not lazy: nothing is touched; a worker, if started, runs in its own
+//     goroutine to completion (synctest.Wait) before observe returns.  maybeRan
+//     says that this may have happened (a deadline was stored and no worker
+//     was in progress).
+func (z *zzG04Sys) observe(lazy bool, f func() (inEffect, known bool)) (maybeRan bool) {
 	_, until := z.f.ProtectionStatus()
-
-	return until != nil && !time.Now().Before(*until) && !z.s.protectionUpdateInProgress.Load()
-}
-
-// observe runs f, an observation (dns_info read or query).  lazy: if it would
-// start the write-back worker, the worker is held back (vpend) instead of
-// running in its goroutine; otherwise the real goroutine runs to completion
-// (synctest.Wait) before observe returns.  started says whether the worker
-// was started by this observation.
-func (z *zzG04Sys) observe(lazy bool, f func()) (started bool) {
-	started = z.wouldStart()
-	if started && lazy {
+	free := until != nil && !z.s.protectionUpdateInProgress.Load()
+	armed := free && lazy
+	if armed {
 		z.s.protectionUpdateInProgress.Store(true)
-		z.vpend = true
 	}
 
-	f()
+	inEffect, known := f()
+	if armed {
+		_, until = z.f.ProtectionStatus()
+		if known && inEffect && until != nil {
+			z.vpend = true
+		} else {
+			z.s.protectionUpdateInProgress.Store(false)
+		}
+	}
+
 	synctest.Wait()
 
-	return started
+	return free && !lazy
 }
+
+// zzG04Reveals says whether the reply to a query of this kind shows if
+// protection is in effect.
+func zzG04Reveals(kind string) (ok bool) { return kind != "rw" && kind != "clean" }
 
 // worker lets the held-back worker run.
 func (z *zzG04Sys) worker() {
@@ -714,8 +730,8 @@ func (z *zzG04Sys) relReply(until *time.Time) (s string) {
 }
 
 // do executes one action of the spec's alphabet.  ran says that the
-// observation started the write-back worker and the worker (the real
-// goroutine) has run to completion.
+// observation may have started the write-back worker and that the worker (the
+// real goroutine), if started, has run to completion.
 func (z *zzG04Sys) do(act string, seed int64) (out, detail string, ran bool) {
 	rng := rand.New(rand.NewSource(seed))
 	f := strings.Fields(act)
@@ -727,20 +743,24 @@ func (z *zzG04Sys) do(act string, seed int64) (out, detail string, ran bool) {
 	case "flag":
 		out, detail = z.setFlag(f[1] == "1")
 	case "info":
-		started := z.observe(lazy, func() {
+		ran = z.observe(lazy, func() (inEffect, known bool) {
 			en, until, d, err := z.info()
 			if err != nil {
 				out, detail = "error", err.Error()
 
-				return
+				return false, false
 			}
 
 			out, detail = fmt.Sprintf("%d,%s", zzG04B2I(en), z.relReply(until)), d
+
+			return en, true
 		})
-		ran = started && !lazy
 	case "query":
-		started := z.observe(lazy, func() { out, detail = z.query(f[1], rng) })
-		ran = started && !lazy
+		ran = z.observe(lazy && zzG04Reveals(f[1]), func() (inEffect, known bool) {
+			out, detail = z.query(f[1], rng)
+
+			return out == "blk", out == "blk" || out == "up"
+		})
 	case "worker":
 		if !z.vpend {
 			return "no-worker", "", false
@@ -764,7 +784,7 @@ func (z *zzG04Sys) do(act string, seed int64) (out, detail string, ran bool) {
 
 	synctest.Wait()
 	if ran {
-		detail += " [worker started and run]"
+		detail += " [a worker, if started, has run]"
 	} else if z.vpend && f[0] != "worker" {
 		detail += " [worker held back]"
 	}
@@ -908,7 +928,7 @@ func (wk *zzG04Walker) acts() (acts []string) {
 }
 
 // admissible lists the (reply, state) pairs the spec admits for act from st.
-// ran: the observation is followed by the worker's step.
+// ran: if the observation starts the worker, the worker's step follows.
 func (wk *zzG04Walker) admissible(st, act string, ran bool) (adm [][2]string, via map[[2]string][]*zzG04Edge) {
 	via = map[[2]string][]*zzG04Edge{}
 	for _, x := range wk.adj[st] {
@@ -916,7 +936,8 @@ func (wk *zzG04Walker) admissible(st, act string, ran bool) (adm [][2]string, vi
 			continue
 		}
 
-		if !ran {
+		starts := strings.HasSuffix(x.dst, "+w") && !strings.HasSuffix(st, "+w")
+		if !ran || !starts {
 			k := [2]string{x.out, x.dst}
 			adm = append(adm, k)
 			via[k] = []*zzG04Edge{x}
@@ -925,7 +946,7 @@ func (wk *zzG04Walker) admissible(st, act string, ran bool) (adm [][2]string, vi
 		}
 
 		for _, y := range wk.adj[x.dst] {
-			if y.act == "worker" && strings.HasSuffix(x.dst, "+w") && !strings.HasSuffix(st, "+w") {
+			if y.act == "worker" {
 				k := [2]string{x.out, y.dst}
 				if _, ok := via[k]; !ok {
 					adm = append(adm, k)
@@ -956,7 +977,7 @@ func (wk *zzG04Walker) exec(act string, planned *zzG04Edge) (ok bool) {
 			}
 		}
 
-		if ran {
+		if len(edges) == 2 {
 			wk.composites++
 		}
 
@@ -1026,7 +1047,7 @@ func (wk *zzG04Walker) exec(act string, planned *zzG04Edge) (ok bool) {
 	return false
 }
 
-const zzG04MaxBad = 3000
+const zzG04MaxBad = 400
 
 // tour covers every open edge once (greedy nearest-uncovered-edge walk).
 func (wk *zzG04Walker) tour() {
@@ -1261,11 +1282,15 @@ func (z *zzG04Sys) msSince(until *time.Time) (u int64, exact bool) {
 	}
 
 	d := until.Sub(z.t0)
-	if d >= time.Duration(zzG04Horizon)*time.Millisecond {
+	switch {
+	case d >= time.Duration(zzG04Horizon)*time.Millisecond:
 		return zzG04Horizon, true
+	case d <= 0:
+		// At or before the origin: no instant of the trace (and not "none").
+		return int64(d/time.Millisecond) - 1, true
+	default:
+		return int64(d / time.Millisecond), d%time.Millisecond == 0
 	}
-
-	return int64(d / time.Millisecond), d%time.Millisecond == 0
 }
 
 func (z *zzG04Sys) proj(st zzG04Stored) (p zzG04Proj) {
@@ -1324,17 +1349,17 @@ func zzG04Trace(t *testing.T, w *zzWriter, k, steps int) {
 				// POST /control/protection.
 				en := rng.Intn(4) == 0
 				dk, d, ms := "num", int64(0), ""
-				switch x := rng.Intn(20); {
-				case x < 4:
+				switch x := rng.Intn(40); {
+				case x < 8:
 					ms = []string{"", "0"}[rng.Intn(2)]
-				case x < 15:
+				case x < 33:
 					d = []int64{1, base, base, base + 1, 2 * base, 1 + rng.Int63n(3*base)}[rng.Intn(6)]
 					if d > 999999999 {
 						d = 999999999
 					}
 
 					ms = strconv.FormatInt(d, 10)
-				case x < 18:
+				case x < 39:
 					dk, ms = "big", zzG04BigMS[rng.Intn(len(zzG04BigMS))]
 				default:
 					dk, ms = "huge", zzG04HugeMS[rng.Intn(len(zzG04HugeMS))]
@@ -1343,14 +1368,14 @@ func zzG04Trace(t *testing.T, w *zzWriter, k, steps int) {
 				res, detail := sys.setProtection(en, ms)
 				synctest.Wait()
 				line("set", map[string]any{"en": en, "d": d, "dk": dk, "res": res, "detail": detail})
-			case c < 26:
+			case c < 25:
 				en := rng.Intn(2) == 0
 				res, detail := sys.setFlag(en)
 				synctest.Wait()
 				line("flag", map[string]any{"en": en, "res": res, "detail": detail})
-			case c < 42:
+			case c < 42 || c == 25:
 				var m map[string]any
-				started := sys.observe(lazy, func() {
+				ran := sys.observe(lazy, func() (inEffect, known bool) {
 					en, until, d, err := sys.info()
 					u, exact := sys.msSince(until)
 					if err != nil || !exact {
@@ -1358,15 +1383,21 @@ func zzG04Trace(t *testing.T, w *zzWriter, k, steps int) {
 					}
 
 					m = map[string]any{"ren": en, "ru": u, "detail": d}
+
+					return en, err == nil
 				})
-				m["ran"] = started && !lazy
+				m["ran"] = ran
 				line("info", m)
 			case c < 62:
 				kinds := []string{"rule", "svc", "sb", "par", "ss", "cname", "rw", "clean"}
 				kind := kinds[rng.Intn(len(kinds))]
 				var res, detail string
-				started := sys.observe(lazy, func() { res, detail = sys.query(kind, rng) })
-				line("query", map[string]any{"kind": kind, "res": res, "detail": detail, "ran": started && !lazy})
+				ran := sys.observe(lazy && zzG04Reveals(kind), func() (inEffect, known bool) {
+					res, detail = sys.query(kind, rng)
+
+					return res == "blk", res == "blk" || res == "up"
+				})
+				line("query", map[string]any{"kind": kind, "res": res, "detail": detail, "ran": ran})
 			case c < 70:
 				if !sys.vpend {
 					i--
@@ -1418,9 +1449,9 @@ func TestZZVerifG04Trace(t *testing.T) {
 	w := zzNewWriter(t, "VERIF_OUT_TRACE")
 	defer w.close()
 
-	ntr, steps := 150, 60
+	ntr, steps := 300, 40
 	if zzG04Thorough() {
-		ntr, steps = 1200, 80
+		ntr, steps = 2500, 50
 	}
 
 	for _, k := range zzG04TraceSel(ntr) {
